@@ -141,3 +141,234 @@ M('R23-hash-order', 'R23',
   'nondeterminism')
 T('R23-sorted-set', 'R23',
   [('subroutines.py', "    for key in dc:\n", "    for key in sorted(set(dc)):\n")])
+
+# ---------------------------------------------------------------------------------------- R02
+M('R02-reset-keeps-flags', 'R02',
+  [('gcp.py', "        self.det_constr = []\n        self.pupdate = True\n        self.dupdate = True\n",
+    "        self.det_constr = []\n")], 'gcp.Model.reset')                  # F16 re-introduced
+M('R02-suppset-no-invalidate', 'R02',
+  [('lp.py', "            self.ambset.sup_constr[i] = tuple(args)\n        self.ambset.model.pupdate = True\n        self.ambset.model.dupdate = True\n",
+    "            self.ambset.sup_constr[i] = tuple(args)\n")], 'lp.Scen.suppset')   # F08
+M('R02-probset-wrong-owner', 'R02',
+  [('dro.py', "        self.model.pupdate = True\n        self.model.dupdate = True\n",
+    "        self.pupdate = True\n        self.dupdate = True\n")], 'dro.Ambiguity.probset', error_ok=True)
+M('R02-adapt-guard-removed', 'R02',
+  [('lp.py', "    def evtadapt(self, scens):\n\n        if self.dro_model.var_ev_list is not None:\n            raise SyntaxError('Adaptation must be defined ' +\n                              'before the model is formulated.')\n",
+    "    def evtadapt(self, scens):\n")], 'lp.DecVar.evtadapt')                 # F09
+M('R02-ro-st-early-return', 'R02',
+  [('ro.py', "                if sense == 0:\n                    self.all_constr.append(constr)\n",
+    "                if sense == 0:\n                    self.all_constr.append(constr)\n                    if len(arg) == 1:\n                        return constr\n")],
+  'ro.Model.st')
+M('R02-minmax-dupdate-only', 'R02',
+  [('ro.py', "        self.obj_support = sup_model.do_math(primal=False, obj=False)\n        self.sign = 1\n        self.pupdate = True\n",
+    "        self.obj_support = sup_model.do_math(primal=False, obj=False)\n        self.sign = 1\n")],
+  'ro.Model.minmax')
+M('R02-dro-do-math-no-reset', 'R02',
+  [('dro.py', "        self.ro_model.reset()\n        self.rule_var()\n", "        self.rule_var()\n")],
+  'dro.Model.do_math')
+T('R02-touch-helper', 'R02',
+  [('ro.py', "        self.obj = obj\n        self.sign = - 1\n        self.pupdate = True\n        self.dupdate = True\n\n    def minmax",
+    "        self.obj = obj\n        self.sign = - 1\n        self._touch()\n\n    def _touch(self):\n\n        self.pupdate = True\n        self.dupdate = True\n\n    def minmax")])
+
+# ---------------------------------------------------------------------------------------- R07
+M('R07-mix-drop-xmat', 'R07',
+  [('dro.py', "            for ex in exp_support.xmat:\n                xconstr = ExpConstr(self.mix_model, exp_var[ex[0]],\n                                    exp_var[ex[1]], exp_var[ex[2]])\n                self.mix_model.st(xconstr)\n", "")],
+  'exp_support.xmat')                                                       # F12 re-introduced
+M('R07-letorc-drop-exp-loop', 'R07',
+  [('lp.py', "            for xconstr in support.xmat:\n                indices = xconstr\n                cone_constr = ExpConstr(self.dec_model,\n                                        dual_var[n, indices[0]],\n                                        dual_var[n, indices[1]],\n                                        dual_var[n, indices[2]])\n                constr_list.append(cone_constr)\n", "")],
+  'lp.RoConstr.le_to_rc|support.xmat')
+M('R07-grb-silent-xmat', 'R07',
+  [('grb_solver.py', "        if formula.xmat:\n            warnings.warn('The SOCP solver ignores exponential cone constraints. ')\n", "")],
+  'grb_solver.solve|formula.xmat')
+M('R07-dual-finite-bound', 'R07',
+  [('lp.py', "            dual_ub = np.zeros(dual_linear.shape[1])\n", "            dual_ub = np.ones(dual_linear.shape[1])\n")],
+  'dual bound code')
+M('R07-letorc-sign-flip', 'R07',
+  [('lp.py', "            bounds.append(dual_var[:, index_pos] <= 0)", "            bounds.append(dual_var[:, index_pos] >= 0)")],
+  'multiplier sign')
+M('R07-eco-ignores-qmat', 'R07',
+  [('eco_solver.py', "    qmat = formula.qmat if isinstance(formula, SOCProg) else []\n", "    qmat = []\n")],
+  'eco_solver.solve|formula.qmat')
+T('R07-warn-reworded', 'R07',
+  [('ort_solver.py', "        if formula.lmi:\n            warnings.warn('The LP solver ignores semidefinite cone constraints.')",
+    "        if len(formula.lmi) > 0:\n            warnings.warn('semidefinite constraints are ignored by OR-Tools')")])
+
+# ---------------------------------------------------------------------------------------- R08 / R13
+M('R08-ro-st-drop-support', 'R08',
+  [('ro.py', "                    right_constr = RoConstr(right, sense=0)\n                    right_constr.support = constr.support\n",
+    "                    right_constr = RoConstr(right, sense=0)\n")], 'ro.Model.st')
+M('R08-declin-drop-ambset', 'R08',
+  [('dro.py', "                        left.ambset = constr.ambset\n                        right.ambset = constr.ambset\n                        return self.ro_to_roc(left) + self.ro_to_roc(right)",
+    "                        return self.ro_to_roc(left) + self.ro_to_roc(right)")], 'DecLinConstr')   # F14
+M('R08-support-from-other', 'R08',
+  [('ro.py', "                    left_constr.support = constr.support\n", "                    left_constr.support = self.obj_support\n")],
+  'ro.Model.st')
+M('R13-right-not-negated', 'R13',
+  [('ro.py', "                    right = RoAffine(-constr.raffine, -constr.affine,", "                    right = RoAffine(-constr.raffine, constr.affine,")],
+  'ro.Model.st')
+M('R13-declin-const-sign', 'R13',
+  [('dro.py', "                                             -constr.linear, -constr.const,", "                                             -constr.linear, constr.const,")],
+  'dro.Model.ro_to_roc')
+M('R13-right-half-dropped', 'R13',
+  [('ro.py', "                    self.all_constr.append(left_constr)\n                    self.all_constr.append(right_constr)\n",
+    "                    self.all_constr.append(left_constr)\n")], 'ro.Model.st')
+M('R13-sense-kept', 'R13',
+  [('dro.py', "                    right = DecRoConstr(-roaffine, 0,", "                    right = DecRoConstr(-roaffine, constr.sense,")],
+  'dro.Model.ro_to_roc')
+
+# ---------------------------------------------------------------------------------------- R09
+M('R09-forall-no-reset', 'R09',
+  [('lp.py', "        sup_model = self.rand_model\n        sup_model.reset()\n", "        sup_model = self.rand_model\n")],
+  'lp.RoConstr.forall')
+M('R09-minmax-primal-support', 'R09',
+  [('ro.py', "        self.obj_support = sup_model.do_math(primal=False, obj=False)\n        self.sign = 1\n",
+    "        self.obj_support = sup_model.do_math(obj=False)\n        self.sign = 1\n")], 'ro.Model.minmax')
+M('R09-forall-no-identity', 'R09',
+  [('lp.py', "        for item in constraints:\n            if item.model is not sup_model:\n                raise ValueError('Models mismatch.')\n            sup_model.st(item)\n\n        self.support",
+    "        for item in constraints:\n            sup_model.st(item)\n\n        self.support")], 'lp.RoConstr.forall')
+M('R09-lower-with-own-none', 'R09',
+  [('ro.py', "                if constr.support:\n                    rc_constrs = constr.le_to_rc()\n                else:\n                    rc_constrs = constr.le_to_rc(self.obj_support)",
+    "                rc_constrs = constr.le_to_rc()")], 'ro.Model.do_math')
+M('R09-dro-wrong-scenario', 'R09',
+  [('dro.py', "                        ro_constr.append(inequality.forall(ambset.sup_constr[s]))", "                        ro_constr.append(inequality.forall(ambset.sup_constr[0]))")],
+  'dro.Model.dro_to_roc')
+M('R09-dro-default-only', 'R09',
+  [('dro.py', "                        ambset = constr.ambset\n                        if isinstance(ambset, Ambiguity):\n                            support = constr.ambset.sup_constr[s]",
+    "                        ambset = constr.ambset\n                        if isinstance(ambset, Ambiguity):\n                            support = self.sup_model.lin_constr")],
+  'dro.Model.ro_to_roc')
+M('R09-mix-no-exp-reset', 'R09',
+  [('dro.py', "            self.model.exp_model.reset()\n", "")], 'dro.Ambiguity.mix_support')
+
+# ---------------------------------------------------------------------------------------- R17 / R18
+M('R17-get-no-nan-guard', 'R17',
+  [('ro.py', "        solution = self.rc_model.solution\n        if np.isnan(solution.objval):\n            msg = 'No solution available. '\n            msg += f'{solution.solver} solution status: {solution.status}'\n            raise RuntimeError(msg)\n\n        return",
+    "        solution = self.rc_model.solution\n\n        return")], 'ro.Model.get')
+M('R17-call-no-none-guard', 'R17',
+  [('lp.py', "        if self.model.solution is None:\n            raise SyntaxError('No available solution!')\n        else:\n            linear = self.linear\n            const = self.const\n            nvar = linear.shape[1]\n\n            x = self.model.solution.x[:nvar]",
+    "        if self.model.solution is None:\n            warnings.warn('No available solution!')\n        if True:\n            linear = self.linear\n            const = self.const\n            nvar = linear.shape[1]\n\n            x = self.model.solution.x[:nvar]")],
+  'lp.Affine.__call__')
+M('R17-max-sign-plus', 'R17',
+  [('dro.py', "        self.obj = obj\n        self.obj_ambiguity = ambset\n        self.sign = - 1\n", "        self.obj = obj\n        self.obj_ambiguity = ambset\n        self.sign = 1\n")],
+  'dro.Model.maxinf')
+M('R17-get-forgets-sign', 'R17',
+  [('dro.py', "        return self.sign * self.solution.objval", "        return self.solution.objval")], 'dro.Model.get')
+M('R17-epigraph-double-sign', 'R17',
+  [('socp.py', "                obj_constr = (self.vars[0] - self.sign * self.obj >= 0)", "                obj_constr = (self.vars[0] - self.sign * self.sign * self.obj >= 0)")],
+  'socp.Model.do_math')
+M('R17-dual-no-sign', 'R17',
+  [('lp.py', "                pi = self.model.solution.y['lpi'] * self.model.sign\n", "                pi = self.model.solution.y['lpi']\n")],
+  'lp.Bounds.dual')
+M('R18-power-double-offset', 'R18',
+  [('lp.py', "                output = self.multiplier*self.sign*(value_in ** expo) + value_out\n",
+    "                output = self.multiplier*self.sign*(value_in ** expo) + value_out\n                output += value_out\n")],
+  'branch T')                                                               # F19
+M('R18-entropy-sign', 'R18',
+  [('lp.py', "                    item = -self.multiplier*self.sign*(value_in*np.log(1/value_in)).sum()", "                    item = self.multiplier*self.sign*(value_in*np.log(1/value_in)).sum()")],
+  'lp.DecConvex.__call__|branch P')                                         # F20
+M('R18-square-multiplier', 'R18',
+  [('lp.py', "                output = self.multiplier**2*self.sign*(value_in**2) + value_out", "                output = self.multiplier*self.sign*(value_in**2) + value_out")],
+  'branch S')
+M('R18-abs-no-offset', 'R18',
+  [('lp.py', "                output = self.multiplier*self.sign*abs(value_in) + value_out\n            elif self.xtype == 'M':", "                output = self.multiplier*self.sign*abs(value_in)\n            elif self.xtype == 'M':")],
+  'branch A')
+M('R18-no-else-raise', 'R18',
+  [('lp.py', "                output = self.multiplier*self.sign*(value_in ** expo) + value_out\n            else:\n                raise ValueError('Unsupported convex/concave expression.')",
+    "                output = self.multiplier*self.sign*(value_in ** expo) + value_out\n            else:\n                output = value_out")],
+  'lp.Convex.__call__|else')
+
+# ---------------------------------------------------------------------------------------- R19
+M('R19-ort-fabricated', 'R19',
+  [('ort_solver.py', "    if status == pywraplp.Solver.OPTIMAL:\n        x_sol =", "    if True:\n        x_sol =")], 'ort_solver.solve')
+M('R19-eco-failure-keeps-x', 'R19',
+  [('eco_solver.py', "        solution = Solution('ECOS', np.nan, None, status, stime)", "        solution = Solution('ECOS', np.nan, sol['x'], status, stime)")],
+  'eco_solver.solve')
+M('R19-defsol-binary-constants', 'R19',
+  [('lp.py', "        lb[bool_bin] = np.maximum(lb[bool_bin], 0)\n        ub[bool_bin] = np.minimum(ub[bool_bin], 1)\n", "        lb[bool_bin] = 0\n        ub[bool_bin] = 1\n")],
+  'lp.def_sol')
+M('R19-eco-swap-h', 'R19',
+  [('eco_solver.py', "                   -formula.lb[zlb_idx],\n                   formula.ub[zub_idx],", "                   formula.ub[zub_idx],\n                   -formula.lb[zlb_idx],")],
+  'ECOS block order')
+M('R19-eco-dual-offset', 'R19',
+  [('eco_solver.py', "        upi[zub_idx] = - sol['z'][num_ineq + num_zlb + np.arange(num_zub)]", "        upi[zub_idx] = - sol['z'][num_ineq + np.arange(num_zub)]")],
+  'ECOS dual offsets')
+M('R19-eco-lb-sign', 'R19',
+  [('eco_solver.py', "    Glb = sp.csr_matrix((-np.ones(num_zlb),", "    Glb = sp.csr_matrix((np.ones(num_zlb),")], 'ECOS bound rows')
+M('R19-clp-none-return', 'R19',
+  [('clp_solver.py', "        warnings.warn('Fail to find the optimal solution.')\n        # solution = None\n        solution = Solution('CyLP', np.nan, None, status, stime)",
+    "        warnings.warn('Fail to find the optimal solution.')\n        solution = None")], 'clp_solver.solve')
+M('R19-msk-skip-vtype', 'R19',
+  [('msk_solver.py', "    idx_int = [i for i, v in enumerate(form.vtype) if v == 'I']", "    idx_int = []"),
+   ('msk_solver.py', "    idx_bin = [i for i, v in enumerate(form.vtype) if v == 'B']", "    idx_bin = []"),
+   ('msk_solver.py', "    idx_cont = [i for i, v in enumerate(form.vtype) if v == 'C']", "    idx_cont = list(range(form.linear.shape[1]))"),
+   ('msk_solver.py', "            if all(form.vtype == 'C'):", "            if True:")], 'msk_solver.solve|never reads form.vtype')
+
+# ---------------------------------------------------------------------------------------- R20
+M('R20-lp-st-no-model-check', 'R20',
+  [('lp.py', "            if constr.model is not self:\n                raise ValueError('Constraints are not defined for this model.')\n            if isinstance(constr, LinConstr):",
+    "            if isinstance(constr, LinConstr):")], 'lp.Model.st')
+M('R20-dro-st-roconstr', 'R20',
+  [('dro.py', "                    if constr.dec_model is not self.vt_model or \\\n                       constr.rand_model is not self.sup_model:\n                        raise ValueError('Models mismatch.')",
+    "                    pass")], 'dro.Model.st')
+M('R20-affine-add-same-type', 'R20',
+  [('lp.py', "            if self.model is not other.model:\n                raise ValueError('Models of operands mismatch.')\n\n            new_const = other.const + self.const",
+    "            new_const = other.const + self.const")], 'lp.Affine.__add__')
+M('R20-obj-redefinable', 'R20',
+  [('ro.py', "    def max(self, obj):\n        \"\"\"\n        Maximize the given objective function.\n\n        Parameters\n        ----------\n        obj : RSOME expression, numeric constant\n            The objective function\n\n        Notes\n        -----\n        The objective function given as an array must have the size\n        to be one.\n        \"\"\"\n\n        if self.obj is not None:\n            raise SyntaxError('Redefinition of the objective is not allowed.')\n",
+    "    def max(self, obj):\n        \"\"\"\n        Maximize the given objective function.\n        \"\"\"\n")], 'ro.Model.max')
+M('R20-ambiguity-after-constraints', 'R20',
+  [('dro.py', "        if self.all_constr:\n            raise SyntaxError('Ambiguity set must be specified ' +\n                              'before defining constraints.')\n\n", "")],
+  'dro.Model.ambiguity')
+M('R20-class-level-cache', 'R20',
+  [('lp.py', "class Affine:\n    \"\"\"\n    The Affine class creates an array of affine expressions.\n    \"\"\"\n\n    __array_priority__ = 100\n",
+    "class Affine:\n    \"\"\"\n    The Affine class creates an array of affine expressions.\n    \"\"\"\n\n    __array_priority__ = 100\n    _cache = {}\n")],
+  'class attribute _cache')
+M('R20-exptset-no-check', 'R20',
+  [('lp.py', "        for arg in args:\n            if arg.model is not self.ambset.model.exp_model:\n                raise ValueError('Constraints are not defined for ' +\n                                 'expectation sets.')\n\n", "")],
+  'lp.Scen.exptset')
+M('R20-new-st-caller', 'R20',
+  [('dro.py', "        sup_var = self.sup_model.dvar(shape, 'C', name)\n", "        sup_var = self.sup_model.dvar(shape, 'C', name)\n        self.sup_model.st(sup_var >= -1e9)\n")],
+  'new caller of st()')
+T('R20-guard-as-neq', 'R20',
+  [('lp.py', "            if constr.model is not self:\n                raise ValueError('Constraints are not defined for this model.')\n            if isinstance(constr, LinConstr):",
+    "            if self != constr.model:\n                raise ValueError('Constraints are not defined for this model.')\n            if isinstance(constr, LinConstr):")])
+
+# ---------------------------------------------------------------------------------------- R21 / R22 / R25 / R26
+M('R21-binary-as-general', 'R21',
+  [('lp.py', "        ind_bin, = np.where(self.vtype == 'B')", "        ind_bin, = np.where(self.vtype == 'b')")], 'section Binary')
+M('R21-socp-head-sign', 'R21',
+  [('socp.py', "            sq += ' - x{} ^2 ] <= 0\\n'.format(qc[0]+1)", "            sq += ' + x{} ^2 ] <= 0\\n'.format(qc[0]+1)")], 'quadratic rows')
+M('R21-sense-flip', 'R21',
+  [('cpx_solver.py', "    sense = ['E' if s == 1 else 'L' for s in formula.sense]", "    sense = ['L' if s == 1 else 'E' for s in formula.sense]")],
+  'cpx_solver.solve')
+M('R21-show-drops-lmi', 'R21',
+  [('gcp.py', "        table_lmi = self.showlmi()\n        if table_lmi is not None:\n            table = pd.concat([table, table_lmi], axis=0)\n", "")], 'gcp.GCProg.show')
+M('R22-ub-lb-swapped', 'R22',
+  [('gcp.py', "        ub = self.ub\n        lb = self.lb\n        obj = self.obj", "        ub = self.lb\n        lb = self.ub\n        obj = self.obj")], 'field ub')
+M('R22-vtype-reset', 'R22',
+  [('gcp.py', "            vtype = np.concatenate((vtype, np.array(['C']*right_width)))", "            vtype = np.array(['C'] * (len(vtype) + right_width))")],
+  'field vtype')
+M('R22-drops-lmi', 'R22',
+  [('gcp.py', "        return GCProg(linear, const, sense, vtype, ub, lb, qmat, [], lmi, obj)", "        return GCProg(linear, const, sense, vtype, ub, lb, qmat, [], [], obj)")],
+  'field lmi')
+M('R22-ro-fixed-degree', 'R22',
+  [('ro.py', "        formula = self.do_math().to_socp(degree, cuts)", "        formula = self.do_math().to_socp(4, cuts)")], 'ro.Model.soc_solve')
+M('R25-sum-drops-ctype', 'R25',
+  [('lp.py', "        expr = super().sum(axis)\n\n        return DecAffine(self.dro_model, expr, self.event_adapt, self.fixed,\n                         self.ctype)",
+    "        expr = super().sum(axis)\n\n        return DecAffine(self.dro_model, expr, self.event_adapt, self.fixed)")], 'lp.DecAffine.sum')  # F07
+M('R25-neg-drops-params', 'R25',
+  [('lp.py', "        return Convex(self.affine_in, -self.affine_out, self.xtype, -self.sign,\n                      self.multiplier,\n                      params=self.params)",
+    "        return Convex(self.affine_in, -self.affine_out, self.xtype, -self.sign,\n                      self.multiplier)")], 'lp.Convex.__neg__|Convex(...): params')
+M('R25-decro-neg-drops-ctype', 'R25',
+  [('lp.py', "        expr = super().__neg__()\n\n        return DecRoAffine(expr, self.event_adapt, self.ctype)", "        expr = super().__neg__()\n\n        return DecRoAffine(expr, self.event_adapt, 'R')")],
+  '', error_ok=False)
+M('R26-sense-other-order', 'R26',
+  [('lp.py', "                    sense_list = [item.sense\n                                  for item in self.lin_constr + self.aux_constr]",
+    "                    sense_list = [item.sense\n                                  for item in self.aux_constr + self.lin_constr]")], 'row order')
+M('R26-index-not-bumped', 'R26',
+  [('lp.py', "                constr.index = self.constr_idx\n                self.constr_idx += 1\n", "                constr.index = self.constr_idx\n")], 'unique index')
+M('R26-eco-pi-masks-swapped', 'R26',
+  [('eco_solver.py', "        pi[eq_idx] = - sol['y']\n        pi[ineq_idx] = - sol['z'][:num_ineq]", "        pi[ineq_idx] = - sol['y']\n        pi[eq_idx] = - sol['z'][:num_ineq]")],
+  'pi fill')
+M('R26-bounds-dual-swapped', 'R26',
+  [('lp.py', "                pi = self.model.solution.y['upi'] * self.model.sign", "                pi = self.model.solution.y['lpi'] * self.model.sign ")],
+  'upi/lpi')
